@@ -9,6 +9,7 @@ batches mixing licensed derivations, trees carrying every label of the vocabular
 (labels outside the grammar, tokens without 'word'); the vocabularies against the labels the real rule functions emit.
 Oracle (independent of the model): on the licensed / labelled / placeholder batches every offered format must return, with
 exactly one record per tree of every sentence."""
+import copy
 import gen
 import render_common as rc
 from gallina import lit
@@ -104,10 +105,10 @@ def check_batch(lang, fs, batch, fail, kind=''):
     """the property on the implementation; returns {format: what to_string did}"""
     res = {}
     for f in fs:
-        r = rc.render(lang, batch, f)
+        r = rc.render(lang, copy.deepcopy(batch), f)        # one rendering of fresh objects: histories are C18's subject
         res[f] = r
         if r[0] != 'ok':
-            which = [i for i, sent in enumerate(batch, 1) if rc.render(lang, [sent], f)[0] != 'ok']
+            which = [i for i, sent in enumerate(batch, 1) if rc.render(lang, copy.deepcopy([sent]), f)[0] != 'ok']
             fail('render_raises', f'[{lang}] to_string(format={f!r}) raises {r[1:]!r} on a batch of {len(batch)} sentence(s) ({kind}); '
                                   f'sentences that fail alone: {which or "none - only the batch fails"}',
                  {'lang': lang, 'format': f, 'batch': rc.enc_batch(batch), 'kind': kind})
@@ -153,7 +154,7 @@ def run(ctx):
             if len(ctx.samples) < 2 and kind.startswith('label:unary'):
                 ctx.sample({'lang': lang, 'kind': kind, 'sentences': len(batch), 'prolog': res.get('prolog', ('', ''))[1][-300:]})
         for kind, batch in malformed_batches(ctx, lang):
-            res = {f: rc.render(lang, batch, f) for f in fs}
+            res = {f: rc.render(lang, copy.deepcopy(batch), f) for f in fs}
             add_case(lang, kind, batch, res)
             sig = rc.batch_sig(batch)
             for f, r in res.items():
